@@ -21,5 +21,5 @@ for b in blocks:
     head, ty = b.split(" : ", 1)
     res.append((head.strip().lstrip("@"), ty))
 for (name, const), (h, ty) in zip(items, res):
-    ty = "\n".join("    " + l.strip() if i else l for i, l in enumerate(ty.splitlines()))
+    ty = "\n".join("    " + l if i else l for i, l in enumerate(ty.splitlines()))
     print("theorem %s :\n    %s :=\n  @_root_.%s.%s\n" % (name, ty, ns, const))
